@@ -342,7 +342,10 @@ class Multiplexer(wiring.Component):
             assert isinstance(reg_range, range)
             if isinstance(self._ranges, frozenset):
                 # The shadow has already been prepared by a previous elaboration.
-                assert reg_range in self._ranges
+                if reg_range not in self._ranges:
+                    raise ValueError(f"CSR register at addresses {reg_range.start}..{reg_range.stop} "
+                                     f"was added to the memory map after the multiplexer was "
+                                     f"first elaborated")
                 return
             self._ranges.add(reg_range)
             reg_size   = 2 ** ceil_log2(reg_range.stop - reg_range.start)
